@@ -3056,6 +3056,16 @@ static Type *struct_union_decl(Token **rest, Token *tok) {
 
   tok = skip(tok, "{");
 
+  // The scope of a tag begins right after the tag. Declare it as an
+  // incomplete type of this scope before the members are parsed, so
+  // that a member such as "struct T *next" refers to the type being
+  // defined and not to a struct T of an enclosing scope.
+  if (tag && !hashmap_get2(&scope->tags, tag->loc, tag->len)) {
+    Type *fwd = struct_type();
+    fwd->size = -1;
+    push_tag_scope(tag, fwd);
+  }
+
   // Construct a struct object.
   struct_members(&tok, tok, ty);
   *rest = attribute_list(tok, ty);
